@@ -36,9 +36,10 @@ func init() {
 // ---------- programs ----------
 
 type ccall struct {
-	op string // add, head, close, removeall, size, empty, array, wait, done
-	q  int
-	v  int
+	op  string // add, head, close, removeall, size, empty, array, wait, done
+	q   int
+	v   int
+	via string // array: "" = AsArray(), "iterator" = GetIterator() and a full walk (the model's CAsArray either way)
 }
 
 type cthread struct {
@@ -134,6 +135,8 @@ func (t cthread) human() string {
 				}
 			} else if c.op == "wait" || c.op == "done" {
 				cs[i] = c.op
+			} else if c.op == "array" && c.via == "iterator" {
+				cs[i] = fmt.Sprintf("array(q%d) read through GetIterator()+walk", c.q)
 			} else {
 				cs[i] = fmt.Sprintf("%s(q%d)", c.op, c.q)
 			}
@@ -363,6 +366,7 @@ type crun struct {
 	sizes    []int
 	wgSpawn  []int
 	resultsH [][]string
+	snaps    map[int][][]int // per thread: the queue's contents read by the scheduler (every goroutine parked) right after each AsArray/GetIterator step of that thread
 }
 
 // runProgram executes prog on the real library; choose picks the index (into the enabled list) at each step.
@@ -546,7 +550,21 @@ func runProgramT[V any](prog cprog, cd elemCodec[V], choose func(step int, enabl
 				case "empty":
 					t.results = append(t.results, fmt.Sprintf("REmpty %v", q.IsEmpty()))
 				case "array":
-					t.results = append(t.results, "RArray "+zList(codesOf(q)))
+					if c.via == "iterator" {
+						// the same observation through the iterator: it must enumerate the queue as it was when it was obtained
+						// (one scheduling point, kind 7, like AsArray); walked to the end, then HasNext must stay false
+						it := q.GetIterator()
+						var got []int
+						for n := 0; it.HasNext() && n < 10000; n++ {
+							got = append(got, dec(it.GetNext()))
+						}
+						if it.GetSize() != len(got) {
+							got = append(got, -2) // the iterator's size and its walk disagree: shows as a value no model run has
+						}
+						t.results = append(t.results, "RArray "+zList(got))
+					} else {
+						t.results = append(t.results, "RArray "+zList(codesOf(q)))
+					}
 				}
 				return
 			}
@@ -647,8 +665,26 @@ func runProgramT[V any](prog cprog, cd elemCodec[V], choose func(step int, enabl
 			s.closed[t.qobj] = true
 		}
 		t.state = stRunning
+		kind7, q7 := t.kind == 7, t.qobj
 		s.mu.Unlock()
 		t.grant <- true
+		if kind7 && q7 != nil {
+			// an observer's critical section (AsArray / GetIterator) runs now; once every goroutine is parked again the
+			// scheduler reads the queue itself: nothing has moved in between, so the observer must have seen exactly this
+			if s.quiescent(4 * time.Second) {
+				ch := make(chan []int, 1)
+				go func() { ch <- codesOf(q7) }()
+				select {
+				case snap := <-ch:
+					if out.snaps == nil {
+						out.snaps = map[int][][]int{}
+					}
+					out.snaps[tid] = append(out.snaps[tid], append([]int{}, snap...))
+				case <-time.After(2 * time.Second):
+					s.stuckMutex = true
+				}
+			}
+		}
 	}
 	// observations
 	out.final = !out.hung
@@ -744,6 +780,30 @@ func checkRun(prog cprog, run crun) []string {
 	for i, n := range run.wgSpawn {
 		if n != i+1 {
 			bad = append(bad, fmt.Sprintf("when helper goroutine %d was started the caller's wait group counted %d instead of %d: group.Add must precede the go statement, otherwise group.Wait can return before the helper has run (outputs never filled nor closed)", i+1, n, i+1))
+		}
+	}
+	// observers: what a thread read through AsArray() / GetIterator() must be what the queue held at that moment
+	// (C04: only values added and not yet removed, in FIFO order; C17: an iterator enumerates the collection as it
+	// was when it was obtained) - the scheduler read the queue itself right after the observer's step
+	for ti, res := range run.results {
+		if res == nil || ti >= len(prog.threads) || prog.threads[ti].kind != "client" {
+			continue
+		}
+		k := 0
+		for ci, r := range res {
+			if ci >= len(prog.threads[ti].calls) || !strings.HasPrefix(r, "RArray ") || prog.threads[ti].calls[ci].op != "array" {
+				continue
+			}
+			if k < len(run.snaps[ti]) {
+				if want := "RArray " + zList(run.snaps[ti][k]); r != want {
+					how := "AsArray()"
+					if prog.threads[ti].calls[ci].via == "iterator" {
+						how = "GetIterator() and a full walk"
+					}
+					bad = append(bad, fmt.Sprintf("observer thread %d read %s through %s while the queue held %s at that moment (read by the scheduler with every goroutine parked): a state the queue was never in", ti, strings.TrimPrefix(r, "RArray "), how, zList(run.snaps[ti][k])))
+				}
+			}
+			k++
 		}
 	}
 	// values are identified by their code; one code may be added several times (streams of zero values), so
@@ -937,7 +997,11 @@ func genPC(r *rng, withRemoveAll bool, elem string) cprog {
 		t.kind = "client"
 		n := 1 + r.intn(4)
 		for j := 0; j < n; j++ {
-			t.calls = append(t.calls, ccall{op: []string{"size", "array", "empty"}[r.intn(3)], q: 0})
+			c := ccall{op: []string{"size", "array", "empty", "array"}[r.intn(4)], q: 0}
+			if c.op == "array" && r.chance(1, 2) {
+				c.via = "iterator"
+			}
+			t.calls = append(t.calls, c)
 		}
 		p.threads = append(p.threads, t)
 	}
@@ -1379,7 +1443,7 @@ func genConc(prop string, seed uint64, tier, outDir string, count int) error {
 	}
 	meta.Extra["cases_violating_the_property_predicates_on_the_implementation"] = predViol
 	meta.Cases = len(cases)
-	meta.Rule = "the queues of a case carry one of the element types int, string, *int, any, []int (each in turn); values are written as integer codes (0 = the zero value of the type: 0, \"\", nil pointer, nil interface, nil slice; 1..9 further special values: pointer to 0, any(\"\"), any(0), any((*int)(nil)), any([]int(nil)), any(false), empty non-nil slice; >= 10 ordinary distinct values); about a third of the added values are zero/special, one program in eight adds only zero values; C06 streams follow the patterns no-zero / zero-first / zero-middle / zero-last / all-zero / mixed / specials-only in turn; each case is a client program (C04/C05: 1-3 producers adding 1-3 values, 1-3 consumers (fixed number of RemoveHead or read-until-closed), capacity 1-3, optional closer behind the wait group, observers, optional RemoveAll caller; C05 constructors: class-level MakeFromArray / MakeFromSequence, the module-level Queue(values), a parsed literal, and - a quarter of them - the module-level Queue(capacity, values) with 0 .. 2*capacity values, which must return (an empty queue of that capacity on the pinned tree), occasionally a CloseQueue racing with AddValue; C06: Fork/Split/Split+Join with stream length 0-6, fan-out 2-3, capacity 1-2, feeder, one reader per output, a waiter) together with the schedule the controlled scheduler drew for it on the real code (thorough: additionally every schedule of a few small programs, up to 4000 each); distinct = the (program, schedule, results) text differs; non-trivial = at least 4 granted steps"
+	meta.Rule = "the queues of a case carry one of the element types int, string, *int, any, []int (each in turn); values are written as integer codes (0 = the zero value of the type: 0, \"\", nil pointer, nil interface, nil slice; 1..9 further special values: pointer to 0, any(\"\"), any(0), any((*int)(nil)), any([]int(nil)), any(false), empty non-nil slice; >= 10 ordinary distinct values); about a third of the added values are zero/special, one program in eight adds only zero values; C06 streams follow the patterns no-zero / zero-first / zero-middle / zero-last / all-zero / mixed / specials-only in turn; each case is a client program (C04/C05: 1-3 producers adding 1-3 values, 1-3 consumers (fixed number of RemoveHead or read-until-closed), capacity 1-3, optional closer behind the wait group, observers (GetSize, IsEmpty, and the contents read through AsArray() or through GetIterator() and a full walk - the model's CAsArray either way), optional RemoveAll caller; C05 constructors: class-level MakeFromArray / MakeFromSequence, the module-level Queue(values), a parsed literal, and - a quarter of them - the module-level Queue(capacity, values) with 0 .. 2*capacity values, which must return (an empty queue of that capacity on the pinned tree), occasionally a CloseQueue racing with AddValue; C06: Fork/Split/Split+Join with stream length 0-6, fan-out 2-3, capacity 1-2, feeder, one reader per output, a waiter) together with the schedule the controlled scheduler drew for it on the real code (thorough: additionally every schedule of a few small programs, up to 4000 each); distinct = the (program, schedule, results) text differs; non-trivial = at least 4 granted steps"
 	for i := 0; i < 3 && i < len(cases); i++ {
 		meta.Samples = append(meta.Samples, meta.Traces[i*len(cases)/3])
 	}
